@@ -29,13 +29,33 @@ def setup():
     env["MIRIFLAGS"] = "-Zmiri-disable-isolation"
     core.run(["cargo", "+nightly", "miri", "run", "--offline", "-q", "-p", "mon", "--target-dir", os.path.join(core.TARGET, "miri")] + core.MIRI_FEATURES["pure"] + ["--", "selftest"],
              cwd=core.HARNESS, env=env, timeout=1800)
+    for t in XT_TARGETS:
+        env2 = core.env_base()
+        env2["RUSTFLAGS"] = "--cfg %s" % core.GUARD
+        env2["MIRIFLAGS"] = "-Zmiri-disable-isolation"
+        core.run(["cargo", "+nightly", "miri", "run", "--offline", "-q", "-p", "mon", "--target-dir", os.path.join(core.TARGET, "miri-" + t.split("-")[0])] +
+                 core.MIRI_FEATURES["xt"] + ["--target", t, "--", "selftest"], cwd=core.HARNESS, env=env2, timeout=2700)
     print("setup ok")
     return 0
+
+
+XT_TARGETS = ["s390x-unknown-linux-gnu", "i686-unknown-linux-gnu"]
+
+
+def xtarget(ctx, classes):
+    """Cross-target battery under Miri (big-endian s390x, 32-bit i686): endianness and pointer
+    width are configurations no x86-64 execution can reach. `classes`: which of the battery's
+    violation classes count for the calling property."""
+    adopt = lambda sig: sig.startswith("XT/") and any(sig.startswith("XT/" + c) for c in classes)
+    ctx.parallel([(lambda t=t: core.miri_run(ctx, "xt/" + t.split("-")[0], ["xt"], shards=1, flavour="xt", target=t, adopt=adopt, timeout=2400))
+                  for t in XT_TARGETS], workers=2)
 
 
 def c01(ctx):
     ctx.mon("c01/asm-debug", "asm", "debug", ["c01"])
     ctx.mon("c01/asm-release", "asm", "release", ["c01"])
+    if ctx.thorough:
+        xtarget(ctx, ["hash"])
     if ctx.thorough:
         core.coverage_evidence(ctx, ['c01'], ['/repo/src/lib.rs', '/repo/src/portable.rs', '/repo/src/platform.rs', '/repo/src/hazmat.rs'])
 
@@ -82,6 +102,7 @@ def c08(ctx):
 def c09(ctx):
     ctx.mon("c09/asm-debug", "asm", "debug", ["c09"])
     ctx.mon("c09/asm-release", "asm", "release", ["c09"])
+    xtarget(ctx, ["hazmat"])
     if ctx.thorough:
         core.coverage_evidence(ctx, ['c09'], ['/repo/src/hazmat.rs', '/repo/src/lib.rs'])
 
@@ -115,7 +136,7 @@ def c04(ctx):
     """Battery = the C01/C02/C03/C09 monitors (each compares with specmodel, so the comparison is
     N-way) executed in every cell of flavour x forced SIMD level x feature set x profile."""
     t = ctx.thorough
-    sc = "1.0" if t else "0.12"
+    sc = "0.25" if t else "0.12"
     cells = []
     for fl in ("asm", "intr", "pure"):
         for p in ("portable", "sse2", "sse41", "avx2", "avx512"):
@@ -250,6 +271,7 @@ def c14(ctx):
 def c15(ctx):
     ctx.mon("c15/asm-debug", "asm", "debug", ["c15"])
     ctx.mon("c15/asm-release", "asm", "release", ["c15"])
+    xtarget(ctx, ["reference_impl"])
     # second, independent voice for the published vectors: pyspec (big-int Python model)
     import json, sys
     sys.path.insert(0, os.path.join(core.VERIF, "pyspec"))
